@@ -270,6 +270,8 @@ inductive Wrap
   | wrapped        -- lightclient MsgUpdateClient{Inner} in the transaction
   | nested         -- ibc MsgUpdateClient inside authz.MsgExec
   | nestedWrapped  -- lightclient MsgUpdateClient inside authz.MsgExec
+  | storedProposal -- ibc MsgUpdateClient inside an x/group MsgSubmitProposal that is only stored (Exec unspecified) and would
+                   -- be executed later, by a vote with Exec = TRY, through the message router alone
   deriving DecidableEq, Repr, Inhabited
 
 inductive Res
@@ -286,6 +288,7 @@ inductive Res
 def updateClient (s : St) (c : Nat) (w : Wrap) (hd : Hdr) (ibc : Bool) : St × Res :=
   match w with
   | .nested => (s, .ante .nestedDisabled)
+  | .storedProposal => (s, .ante .nestedDisabled)     -- the filter unwraps a proposal whatever its Exec field says
   | .wrapped => (s, .ante .noSigner)
   | .nestedWrapped => (s, .msg .noSigner)
   | .top =>
@@ -299,6 +302,7 @@ def updateClient (s : St) (c : Nat) (w : Wrap) (hd : Hdr) (ibc : Bool) : St × R
 
 inductive MKind
   | submit | submitNested | viaUpdate | viaUpdateNested | viaWrapped | viaWrappedNested
+  | submitStored | viaUpdateStored      -- inside a stored x/group proposal (see `Wrap.storedProposal`)
   deriving DecidableEq, Repr, Inhabited
 
 /-- misbehaviour evidence against client `c`; `ibc` = the evidence verifies (the client gets frozen) -/
@@ -313,6 +317,8 @@ def misbehaviour (s : St) (c : Nat) (k : MKind) (ibc : Bool) : St × Res :=
     | .submitNested => (s, .ante .nestedDisabled)             -- refused at depth ≥ 1 like a nested MsgUpdateClient
     | .viaUpdate => if canonical then (s, .ante .misbehaviourDisabled) else exec
     | .viaUpdateNested => (s, .ante .nestedDisabled)
+    | .submitStored => (s, .ante .nestedDisabled)
+    | .viaUpdateStored => (s, .ante .nestedDisabled)
     | .viaWrapped => (s, .ante .noSigner)
     | .viaWrappedNested => (s, .msg .noSigner)
 
